@@ -139,8 +139,8 @@ that changes no pixel -/
 theorem refines_setEncodings (scr : Screen) (c : Client) (cr cs : Bool) (hc : WFc c)
     (fb pic : Pix → V) :
     WFc (setEncodings scr c cr cs) ∧
-    Step (S scr) (absS c fb pic) (absS (setEncodings scr c cr cs) fb pic) :=
-  ⟨setEncodings_wf scr c cr cs hc, setEncodings_step (S scr) scr c cr cs hc fb pic⟩
+    Reach (S scr) (absS c fb pic) (absS (setEncodings scr c cr cs) fb pic) :=
+  ⟨setEncodings_wf scr c cr cs hc, setEncodings_reach (S scr) scr c cr cs hc fb pic⟩
 
 /-- rfbDoCopyRegion + rfbScheduleCopyRegion for a well-formed destination region whose source lies
 on the screen: one of `Step.copyNoCR` / `copyNew` / `copySame` (which one is decided exactly as the
